@@ -200,10 +200,16 @@ func (i *Importer) Commit() error {
 		}
 	case 1:
 		i.stack[0].nodeKey.nonce = 1
+		if i.stack[0].nodeKey.version < i.version { // it means there is no update in the given version
+			// the root node belongs to an earlier version which is not imported: store it
+			// as (version, 0), like the root of a pruned version, so that only the imported
+			// version gets a root key and becomes visible.
+			i.stack[0].nodeKey.nonce = 0
+		}
 		if err := i.writeNode(i.stack[0]); err != nil {
 			return err
 		}
-		if i.stack[0].nodeKey.version < i.version { // it means there is no update in the given version
+		if i.stack[0].nodeKey.version < i.version {
 			if err := i.batch.Set(i.tree.ndb.nodeKey(GetRootKey(i.version)), i.tree.ndb.nodeKey(i.stack[0].nodeKey.GetKey())); err != nil {
 				return err
 			}
